@@ -183,14 +183,14 @@ PROPS = {
     "C04": dict(
         level="other",
         technique="Kani automatic panic/overflow/bounds obligations on every unit under contract + Verus overflow obligations",
-        level_text="Partial. For every function under contract (ExtendedTime, UniqueSortedVec, CompactCalendar/Year/Month, Schedule::from_ranges and iteration, all date and time selector filters and hints, date kernels, is_constant) Kani's automatic obligations - arithmetic overflow, unwrap/expect on None/Err, slice bounds, explicit panic!/assert!/unreachable! - are discharged for all inputs satisfying the stated precondition; Verus discharges overflow on the ExtendedTime arithmetic. `parse`, Display, normalize and the interval iterator are not covered, and termination is not proved.",
+        level_text="Partial. For every function under contract (ExtendedTime, UniqueSortedVec, CompactCalendar/Year/Month, Schedule::from_ranges and iteration, all date and time selector filters and hints, date kernels, is_constant) Kani's automatic obligations - arithmetic overflow, unwrap/expect on None/Err, slice bounds, explicit panic!/assert!/unreachable! - are discharged for all inputs satisfying the stated precondition; Verus discharges overflow and unwrap/expect/assert obligations on the ExtendedTime arithmetic and on CompactCalendar/Year/Month insert/contains (unbounded calendars). `parse`, Display, normalize and the interval iterator are not covered, and termination is not proved.",
         level_note="Arithmetic overflow is counted as a panic (dev profile). Preconditions are the AST invariants of the grammar; the one region where they admit a panic (day offsets beyond chrono's date range, `Mo[1] +999999999 days`) is a recorded known finding with an expected-to-fail twin harness. Not decided: parse on arbitrary strings (pest), printing, normalize, state/next_change/iteration as wholes, bounded work.",
         explanation="PARTIAL: per-unit absence of panics only.",
         undecided_clauses=[
             "'parse returns Ok or Err for every string' (pest-generated parser; the `10:00-12:00/30` panic in build_timespan is recorded in DESIGN.md only)",
             "'printing, normalizing, state, next_change and range iteration return normally after a bounded amount of work' - whole-API totality and termination are not decided",
         ],
-        trusted_base=_TB_COMMON + ["Verus / Z3 for the ExtendedTime overflow obligations"],
+        trusted_base=_TB_COMMON + ["Verus / Z3 for the ExtendedTime and compact-calendar obligations (assumed: chrono NaiveDate accessor ranges, VecDeque accessor specs)"],
         assumptions=["AST invariants as for C01; unwinding bounds per harness with unwinding assertions on"],
     ),
     "C08": dict(
@@ -219,15 +219,16 @@ PROPS = {
     ),
     "C15": dict(
         level="other",
-        technique="Kani function contracts, modular (CompactMonth -> CompactYear -> CompactCalendar via stub_verified)",
-        level_text="Complete for CompactMonth and CompactYear, bounded for CompactCalendar. Month: insert/contains/first/first_after/count/iter and (de)serialisation against the set-of-days view for all 2^31 bitmaps x all days (loop-free or 31-bit loops with unwinding assertions), including readers that return short reads. Year: the same statements lexicographically over (month, day) for 12 symbolic months, month operations replaced by their proved contracts (stub_verified); whole-view postconditions through a ghost query date. Calendar: insert (reports newness, exactly the inserted date is added - query date anywhere, window anywhere in chrono's range), contains, count, first_after (the strictly next member, also across empty years), equality, for calendars of <= 3 stored years with year operations replaced by their contracts; iteration and calendar-level serialisation only in the thorough tier.",
-        level_note="Contracts are overlaid as #[kani::requires/ensures/modifies] attributes; quick tier proves the same predicates in assert form where Kani's contract instrumentation is 60-200x more expensive (the proof_for_contract harnesses that stub_verified refers to run in the thorough tier). Calendar level bounded: <= 3 stored years, window growth <= 3 years per insert. The representation invariant (only valid dates set) is a precondition, established by insert(NaiveDate).",
-        explanation="month/year obligations complete; calendar obligations BOUNDED (<= 3 stored years).",
+        technique="function contracts: Verus on verbatim-extracted insert/contains (unbounded calendars) + Kani function contracts, modular (CompactMonth -> CompactYear -> CompactCalendar via stub_verified)",
+        level_text="Proved without bound (Verus, bodies extracted verbatim every run): `insert` and `contains` of CompactMonth, CompactYear and CompactCalendar and the three `default()` constructors - for a calendar of ANY number of stored years, any date of chrono's range and any query date, `insert` reports whether the date was new, adds exactly that date to the set view `has(y, m, d)` and changes nothing else (whole-view postcondition), keeps the type invariant, and cannot overflow or hit a failing unwrap/expect/assert; `contains` is membership. Complete (Kani, all 2^31 bitmaps x all days, 12 symbolic months): month/year first, first_after, count, iter and (de)serialisation incl. short reads. Bounded (Kani, <= 3 stored years, window anywhere in chrono's range): calendar count, first_after (strictly next member, also across empty years), equality, and - thorough tier - iteration and calendar-level serialisation.",
+        level_note="Verus side: chrono::NaiveDate is an opaque stand-in whose year()/month()/day() are assumed to return values in chrono's documented ranges; VecDeque::{get, get_mut, back_mut, front_mut, is_empty} are assume_specifications over vstd's Seq view; loop invariants of the two growth loops are annotations spliced by the extractor (add-only, checked). Kani side: contracts overlaid as #[kani::requires/ensures/modifies] attributes; quick tier proves the same predicates in assert form where Kani's contract instrumentation is 60-200x more expensive. Calendar-level Kani harnesses bounded: <= 3 stored years, window growth <= 3 years per insert.",
+        explanation="insert/contains/default: PROVED unbounded (Verus); month/year first/first_after/count/iter/serde: complete (Kani); calendar count/first_after/eq/iter/serde: BOUNDED (<= 3 stored years).",
         undecided_clauses=[
-            "unbounded year windows; 'after any sequence of insertions' beyond the bounded windows follows only inductively from the per-operation contracts (insert preserves the view), which is argued in DESIGN.md, not machine-checked",
+            "calendar-level count, ordered iteration, first_after, equality and serialisation for windows of more than 3 stored years (iterator chains and io::Read/Write are outside Verus's dialect; Kani harnesses are bounded)",
         ],
-        trusted_base=_TB_COMMON,
-        assumptions=["calendar harnesses: window of <= 3 stored years anywhere in chrono's range, growth <= 3 years"],
+        trusted_base=_TB_COMMON + ["Verus 0.2026.09.13 / Z3 (mathematical integers with overflow obligations)",
+                                   "assumed contracts: chrono::NaiveDate::{year, month, day} ranges; std VecDeque::{get, get_mut, back_mut, front_mut, is_empty}"],
+        assumptions=["calendar-level Kani harnesses: window of <= 3 stored years anywhere in chrono's range, growth <= 3 years"],
     ),
     "C17": dict(
         level="other",
